@@ -463,7 +463,7 @@ impl Exec {
                     i => n > i as usize && !(i as usize == n - 1 && n >= 1 && false),
                 }
             }
-            K::Register(_) => side.pending.len() < 5,
+            K::Register(_) => side.pending.len() < 7,
             K::PopFront => !side.iov.stable_prefix().is_empty(),
             K::CloneA => op.side == 0 && self.sides[1].is_none() && side.pending.is_empty(),
             K::Take => op.side == 0 && self.sides[1].is_none(),
